@@ -70,17 +70,36 @@ theorem sessions_never_overlap (w0 : World) (h0 : Init w0) (as : List Action) (a
     exact hpid (Option.some.inj ht').symm
   exact ⟨hdead, fun bs => by rw [dead_run bs _ _ hdead]; exact hdead⟩
 
+/-- **Runs never interleave.** In the trace of any schedule, once a protected step of one run for a
+device is followed by a protected step of another run for the same device, the first run never
+executes a protected step again: history, log, status writes and device dialogues of different
+runs form disjoint consecutive blocks. -/
+theorem runs_never_interleave (w0 : World) (h0 : Init w0) (as : List Action) :
+    Separated (run as w0).trace := by
+  have hd : EarlierDead w0 := by
+    intro t1 e t2 heq; rw [h0.trace] at heq; cases t1 <;> cases heq
+  have hs : Separated w0.trace := by
+    intro t1 e t2 heq; rw [h0.trace] at heq; cases t1 <;> cases heq
+  exact (sep_run as w0 (inv_init w0 h0) hd hs).2
+
 /-- **The loser touches nothing.** A process whose flock failed has, at every later point of every
 schedule, executed no protected step (no write to history, status, log; no device session); it does
-not hold the lock; and if it has exited, its exit status is 1. -/
+not hold the lock; and if it has exited, its exit status is 1 and it has printed the error
+(`Error: Approve in progress for …`). -/
 theorem loser_no_effects (w0 : World) (h0 : Init w0) (as : List Action) (i : Pid)
     (hl : ((run as w0).procs i).lost = true) :
     (∀ ev ∈ (run as w0).trace, ev.pid = i → ev.step.protected = false) ∧
     ((run as w0).procs i).holds = false ∧
-    (∀ c, ((run as w0).procs i).st = .exited c → c = 1) := by
+    (∀ c, ((run as w0).procs i).st = .exited c →
+      c = 1 ∧ ∃ ev ∈ (run as w0).trace, ev.pid = i ∧ ev.step = .printErr) := by
   have inv := inv_run as w0 (inv_init w0 h0)
   have hnever := (inv.ok i).lostNever hl
-  refine ⟨?_, ?_, (inv.ok i).lostExit hl⟩
+  refine ⟨?_, ?_, fun c hc => ⟨(inv.ok i).lostExit hl c hc, ?_⟩⟩
+  rotate_left 2
+  · rcases inv.msg i hl with ⟨hr, _⟩ | hk | hm
+    · rw [hc] at hr; cases hr
+    · rw [hc] at hk; cases hk
+    · exact hm
   · intro ev hev hpid
     cases hp : ev.step.protected with
     | false => rfl
@@ -270,7 +289,8 @@ theorem same_device_locked_and_approved :
   decide
 
 def obligations : List Lean.Name := [
-  ``mutex, ``mutex_frontends, ``effects_require_lock, ``sessions_never_overlap, ``loser_no_effects,
+  ``mutex, ``mutex_frontends, ``effects_require_lock, ``sessions_never_overlap, ``runs_never_interleave,
+  ``loser_no_effects,
   ``contender_fails_immediately, ``lock_released_on_death, ``same_lock_file,
   ``setlock_skeleton, ``flock_flags_exclusive_nonblocking, ``lock_file_is_base_of_argument,
   ``approveOrCompare_skeleton, ``drc_prog_matches_source, ``doapprove_prog_matches_source,
